@@ -74,7 +74,7 @@ def scenarios(sh, rng, mk, hid):
 
     def fresh():
         db, text = mk()
-        return db, {'kind': 'c17', 'host': text}
+        return db, {'kind': 'c17', 'host': text, 'host_id': hid}
     # ---- required attributes -------------------------------------------------------------
     for how in ('set-none', 'built'):
         # table without name
@@ -275,7 +275,7 @@ def run_shard(spec, tier, seed, budget_s):
             sh.count('obs.host_rejected')
             continue
         sh.count('obs.hosts.' + origin)
-        scenarios(sh, rng, mk, hseed)
+        scenarios(sh, random.Random(hseed + '-scenarios'), mk, hseed + '|' + origin)
     return sh
 
 
@@ -291,4 +291,14 @@ def conclusive(agg, tier):
 
 
 def replay(v):
-    return [dict(v)]
+    """re-runs every scenario on the witness' host database and reports the ones of the same class"""
+    sh = Shard(ID)
+    hid = (v.get('case') or {}).get('host_id')
+    if not hid:
+        return [dict(v)]
+    hseed, origin = hid.split('|')
+
+    def mk():
+        return host_db(random.Random(hseed), origin, hseed)
+    scenarios(sh, random.Random(hseed + '-scenarios'), mk, hid)
+    return [x for x in sh.violations if x['klass'] == v.get('klass')] or sh.violations[:0]
